@@ -143,7 +143,7 @@ def programs(tier: str) -> list[Program]:
                 if q and len(keys) >= 3 and cancels == 2 and combined:
                     max_dev = 5
                 else:
-                    max_dev = None if len(keys) <= 3 else 6
+                    max_dev = None if (len(keys) <= 3 or not q) else 6
                 ps.append(Program(f"keyed_lock(keys={''.join(keys)},cancels<={cancels},combined={combined})",
                                   {"keys": keys, "cancels": cancels, "combined": combined},
                                   (lambda ex, keys=keys, cancels=cancels, combined=combined: execute(ex, keys, cancels, combined)),
